@@ -37,18 +37,19 @@ const (
 )
 
 type pconn struct {
-	id      int
-	addr    string
-	env     *poolEnv
-	conn    *rpc.Conn
-	feed    chan feedItem
-	closeC  chan struct{}
-	mu      sync.Mutex
-	closed  bool          // socket closed by the client
-	dead    bool          // server side gone
-	eofSeen chan struct{} // closed once the EOF of a kill has been taken by the reader (or the socket closed)
-	nPing   int
-	held    map[int]uint64 // call k -> seq, waiting for `finish`
+	id       int
+	addr     string
+	env      *poolEnv
+	conn     *rpc.Conn
+	feed     chan feedItem
+	closeC   chan struct{}
+	mu       sync.Mutex
+	closed   bool          // socket closed by the client
+	dead     bool          // server side gone
+	eofSeen  chan struct{} // closed once the EOF of a kill has been taken by the reader (or the socket closed)
+	nPing    int
+	nStreams int            // streams open on this connection (opened, not yet closed by their owner)
+	held     map[int]uint64 // call k -> seq, waiting for `finish`
 }
 
 func (c *pconn) ReadMessage(buf []byte) ([]byte, error) {
@@ -83,6 +84,16 @@ func (c *pconn) WriteMessage(b []byte) error {
 	}
 	if len(r.Upgrade) == 1 && r.Upgrade[0]&0x20 == 0 && (r.Upgrade[0]>>3)&3 != 0 {
 		// stream open / close: acknowledged; stream messages are not used here
+		switch (r.Upgrade[0] >> 3) & 3 {
+		case 1:
+			c.mu.Lock()
+			c.nStreams++
+			c.mu.Unlock()
+		case 3:
+			c.mu.Lock()
+			c.nStreams--
+			c.mu.Unlock()
+		}
 		if (r.Upgrade[0]>>3)&3 != 2 {
 			go c.push(refPbRes(resVal{Seq: r.Seq}))
 		}
@@ -241,10 +252,14 @@ func (e *poolEnv) noteClose(c *pconn) {
 	e.open[c.addr]--
 	c.mu.Lock()
 	nheld := len(c.held)
+	nstr := c.nStreams
 	dead := c.dead
 	c.mu.Unlock()
 	if nheld > 0 && !dead && !e.transportClosed {
 		e.closedBusy = append(e.closedBusy, fmt.Sprintf("conn %d (%s) closed with %d unanswered call(s)", c.id, c.addr, nheld))
+	}
+	if nstr > 0 && !dead && !e.transportClosed {
+		e.closedBusy = append(e.closedBusy, fmt.Sprintf("conn %d (%s) closed with %d open stream(s)", c.id, c.addr, nstr))
 	}
 	e.mu.Unlock()
 }
